@@ -2,7 +2,7 @@ CONSTANTS
   K = 5
   W = 4096
   Menus <- MenusFS
-  Inits = "full"
+  Inits = "mid"
   Family = "group"
 INIT Init
 NEXT Next
